@@ -33,7 +33,7 @@ EDGE_OK = [1e-300, 5e-324, 1 - 2 ** -53, 0.9999999999999999, 0.5, 1e-9]
 
 
 def n_fixed(tier):
-    return 1
+    return 2
 
 
 def fixed_specs(tier, ctx):
@@ -57,7 +57,8 @@ def fixed_specs(tier, ctx):
     for m in (1, 1022, 1023, 1024, 100000):
         opl.append({"op": "gen_cli", "params": dict(base, max_reward=m)})
         opl.append({"op": "board", "params": dict(base, max_reward=m)})
-    return [{"cfg": {"klass": "boundaries"}, "ops": opl}]
+    return [{"cfg": {"klass": "boundaries"}, "ops": opl},
+            {"cfg": {"klass": "boundaries-python-OO", "optimize": 2}, "ops": opl}]
 
 
 def _bparams(rng):
